@@ -179,6 +179,8 @@ pub struct InPkt {
     /// `None` for raw garbage.
     pub packet: Option<Packet>,
     pub bytes: Vec<u8>,
+    /// virtual time at which the bytes become readable
+    pub at: u64,
 }
 
 #[derive(Clone, Debug)]
